@@ -26,6 +26,7 @@ func init() {
 		Stub:           []string{"socket listeners", "peer servers (none configured)"},
 		Assumptions:    []string{"fresh ids always carry fresh keys (the GCA assigning one key to two live ids is outside the listed space)"},
 		RequiredProbes: []string{"hist.conflict", "hist.auth-for-banned", "hist.restart", "c06.float-pattern", "c06.ban-with-data", "c06.conflict-key-reuse"},
+		RequiredSites:  []string{"auth.after-write", "auth.preforward"},
 	})
 }
 
